@@ -16,6 +16,7 @@ SPEC = {
             "non-trivial (whitebox/share*) = a non-empty wire set that does not satisfy the formula; "
             "distinct by FNV-64 of (sub-check, canonical formula, assignment number, layout, message length) resp. (ciphertext hash, altered bits)",
     "assumptions": COMMON_ASSUME + [
+        "the harness does not own the Go scheduler: the concurrent sub-check sees the interleavings that 7-14 goroutines behind a barrier produce, an interleaving that needs one precise preemption point may be missed",
         "the reference evaluator zz_verif/ref/abe states the scheme's semantics (NNF by De Morgan; positive leaf = present and equal, negated leaf = present and different); two independently written evaluators are cross-checked on every case",
         "x/crypto/blake2b recomputes the Boneh-Katz id / MAC key / tag when a ciphertext is transcoded into the legacy (v1.3.7) layout; the transcoder is validated byte-for-byte against testdata/ciphertext_v137",
         "operator precedence of the policy language is not > and > or with left-associative binary operators (as implemented by internal/dsl/parser.go and used by its tests); the generator only omits parentheses that this precedence makes redundant",
@@ -32,6 +33,6 @@ MANIFEST = {
             "(preferably near-miss) assignment per formula, for message lengths {0,1,31,32,33,1000}, with original and unmarshalled public / system / attribute keys, in the current layout and in the legacy layout "
             "(transcoded by the harness with the known Boneh-Katz seed; transcoder validated against testdata/ciphertext_v137). No same-length alteration of a ciphertext may decrypt to a different message; panics on single-bit "
             "alterations are reported, other panics only counted (they belong to C10). White-box (internal/tkn): Formula.share is run n+3 times per generated monotone formula, with and without the Boneh-Katz gate of insertAnd; "
-            "for every subset of input wires a fixed linear combination of its shares may reproduce the secret in all runs iff the subset satisfies the formula, and five concrete unauthorised keys must not open the envelope by running decapsulate on a reduced header. Object reuse: one Attributes object refilled by FromMap with a sequence of maps that lose labels, one Policy object refilled by FromString / ExtractFromCiphertext, one AttributeKey object unmarshalled twice — every predicate (Satisfaction, CouldDecrypt, KeyGen->Decrypt, String in both orders) is compared with the reference for the LAST input only. Length fields: message lengths that put the envelope / MAC data at 2^15 and 2^16 (and the legacy maximum 2^16-1) +-1, and labels / values / serialised policy / header at 2^15 and the u16 maximum +-1, in both layouts, through Decrypt / CouldDecrypt / ExtractFromCiphertext with a satisfying and a non-satisfying key. Exploration is the right level: the formula x assignment x randomness space is unbounded while the oracle is exact per case.",
+            "for every subset of input wires a fixed linear combination of its shares may reproduce the secret in all runs iff the subset satisfies the formula, and five concrete unauthorised keys must not open the envelope by running decapsulate on a reduced header. Object reuse: one Attributes object refilled by FromMap with a sequence of maps that lose labels, one Policy object refilled by FromString / ExtractFromCiphertext, one AttributeKey object unmarshalled twice — every predicate (Satisfaction, CouldDecrypt, KeyGen->Decrypt, String in both orders) is compared with the reference for the LAST input only. Length fields: message lengths that put the envelope / MAC data at 2^15 and 2^16 (and the legacy maximum 2^16-1) +-1, and labels / values / serialised policy / header at 2^15 and the u16 maximum +-1, in both layouts, through Decrypt / CouldDecrypt / ExtractFromCiphertext with a satisfying and a non-satisfying key. Concurrency (plain and -race builds): 7-14 goroutines behind a barrier run Encrypt / KeyGen on a shared PublicKey / SystemSecretKey and on those of an independent Setup, Decrypt with shared attribute keys, CouldDecrypt, ExtractFromCiphertext and policy operations (Satisfaction only on per-goroutine Policy objects); afterwards every result must equal the same call made alone with the same deterministic reader, and every ciphertext x key pair made during the run must give the reference verdict. Exploration is the right level: the formula x assignment x randomness space is unbounded while the oracle is exact per case.",
     "note": "trusts the hand-written reference evaluator/parser (cross-checked: two evaluators, renderer vs parser, repository policies.json cases) and x/crypto/blake2b; assignments are exhaustive only over the 4x3 alphabet; full cycles sample a few assignments per formula; an altered ciphertext that an UNauthorised key decrypts to the original message would only be counted (class + note), since the property text does not forbid it; the native fuzz target FuzzC20PolicyFromString exists but is not run by the driver; never establishes absence",
 }
